@@ -1869,7 +1869,10 @@ class ArmV6:
         self.registers.changed_registers = [False] * 16
         self.executed_opcode = opcode
         if self.in_it_block():
+            self.registers.itstate_restored = False
             opcode.execute(self)
-            self.registers.it_advance()
+            # an exception return installs the ITSTATE of the code it returns to, which must not be advanced
+            if not self.registers.itstate_restored:
+                self.registers.it_advance()
         else:
             opcode.execute(self)
